@@ -41,4 +41,34 @@ TEXT['C03'] = dict(
     design_ref='DESIGN.md section 4 (C03)',
     note='Trusted: pyvc, z3, pandas cell-access / sort / astype contracts, the pinned counting expression (bounded stand-in), floats as reals.',
     technique='contract-based deductive verification (loop invariant over table rows, z3) + bounded run-time contract for the counting clause')
+_FT = 'contract-based deductive verification: frame contracts checked against modular effect summaries of the real ASTs'
+TEXT['C11'] = dict(
+    text=('All-inputs frame proof: write / alias effects of every function involved are inferred from the real ASTs function by function '
+          '(callee summaries at call sites) and must stay inside the frame contracts: caller frame, caller dictionary and module-level '
+          'objects are never written and the parameter snapshot shares no object with the global set.'),
+    design_ref='DESIGN.md section 4 (C11)', note='Trusted: the effect analysis (A-FRAME) and its library effect table (A-LIBPURE); a native bounded run accompanies it.',
+    technique=_FT)
+TEXT['C12'] = dict(
+    text=('Frame proof that every processing step reads parameters only through the chunk snapshot and that set / reset go through the '
+          'same merge and fresh defaults; equivalence of the three routes, unknown-key handling and reset are checked by a bounded native '
+          'run (labelled bounded), since adjust_nested_dict is not under a full-mode contract.'),
+    design_ref='DESIGN.md section 4 (C12)', note='Trusted: A-FRAME, ruamel.yaml; bounded part never counted as proved.',
+    technique=_FT + ' + bounded run-time check of the route equivalence')
+TEXT['C13'] = dict(
+    text=('Frame proof of the premises of non-interference (disjoint footprints of operations on distinct chunks, no module-level mutable '
+          'state on the processing path); interleavings at stage granularity then commute.  Thread pre-emption inside a stage is outside the '
+          'technique and only explored by a bounded run.'),
+    design_ref='DESIGN.md section 4 (C13)', note='Trusted: A-FRAME, A-LIBTS; schedules are not modelled.',
+    technique=_FT + ' (premises of non-interference) + bounded interleaving / thread run')
+TEXT['C09'] = dict(
+    text=('tmp_seed proved to restore the generator on both exits (symbolic execution of the real generator body with a ghost state); '
+          'frame proof that the processing path never touches the generator, clock or hash/id and that every mixture model is seeded with '
+          'the integer parameter; bit-identity of the libraries is an assumption checked by digests (bounded).'),
+    design_ref='DESIGN.md section 4 (C09)', note='Trusted: ghost model of np.random.get_state/seed/set_state, A-FRAME, A-DET.',
+    technique='contract-based deductive verification: ghost-state postconditions (z3) + frame contracts over effect summaries')
+TEXT['C20'] = dict(
+    text=('Frame proof that plotting never writes the chunk or module state and changes rcParams only inside restoring style contexts; '
+          'totality of matplotlib, figure closing and file set are explored by a bounded run only.'),
+    design_ref='DESIGN.md section 4 (C20)', note='Trusted: A-FRAME, matplotlib style-context contract; bounded part never counted as proved.',
+    technique=_FT + ' + bounded run over scenes x plot options')
 NA = {}
